@@ -129,8 +129,18 @@ def run(ctx) -> int:
             text = gen.mutate(rng, rng.choice(harvested)[1])
             if rng.random() < 0.4:
                 text = gen.mutate(rng, text)
-        else:
+        elif r < 0.9:
             text = gen.random_program(rng)
+        else:
+            # the shapes the traits actually rewrite (type-directed generators), half of them with one integer literal
+            # replaced by a symbol of another kind or with a variable named like a fresh one
+            import tgen
+            text = rng.choice(sorted(tgen.GENERATORS.items()))[1](rng)
+            m = rng.random()
+            if m < 0.5:
+                text = gen.exotic_const(rng, text)
+            elif m < 0.65:
+                text = gen.collide_vars(rng, text)
         if not safe(text):
             ctx.cov["unsupported"] += 1
             continue
